@@ -4,9 +4,11 @@
   ERn + d modulo 2^24 (the upper byte of ERn takes no part; the encoding's upper displacement byte is zero).
 -/
 import H8.Props.C08D
+import H8.Props.C08W
+import H8.Props.C01L
 set_option linter.unusedSimpArgs false
 namespace H8.Props.C08X
-open H8 H8.Lemmas H8.Props H8.Props.C01M H8.Props.C01N H8.Props.C08D
+open H8 H8.Lemmas H8.Props H8.Props.C01M H8.Props.C01N H8.Props.C01L H8.Props.C08D H8.Props.C08W
 
 set_option hygiene false in
 local macro "movcost_subst" : tactic => `(tactic|
@@ -108,5 +110,194 @@ theorem MOV_B_ST_D24 (op op2 hi lo : BitVec 16) (st s1 s2 st' : Cpu) (c : BitVec
     all_goals (
       simp only [nib, rdB, wrB, getEr, setEr, shOf, Spec.nzClearV, Spec.setFlag, changeCcrV, Spec.z4, Spec.zx8, Spec.lo3]
       bv_decide))
+
+/-! ### word operands -/
+
+theorem disp24_1_toNat (x : BitVec 32) (hi lo : BitVec 16) (h0 : hi &&& 0xff00#16 = 0x0000#16)
+    (hm : Spec.regionOf (((x + ((hi.setWidth 32 <<< 16) ||| lo.setWidth 32)) &&& ADDRESS_MASK) + 1).toNat ≠ .none) :
+    (((x + ((hi.setWidth 32 <<< 16) ||| lo.setWidth 32)) &&& ADDRESS_MASK) + 1).toNat =
+      ((x.setWidth 24 + ((BitVec.setWidth 24 (BitVec.extractLsb' 0 8 hi) <<< 16) ||| BitVec.setWidth 24 (BitVec.extractLsb' 0 16 lo))).toNat + 1) % 2 ^ 24 := by
+  rw [addr1_toNat _ hm]
+  have e : (x + ((hi.setWidth 32 <<< 16) ||| lo.setWidth 32)).setWidth 24 =
+      x.setWidth 24 + ((BitVec.setWidth 24 (BitVec.extractLsb' 0 8 hi) <<< 16) ||| BitVec.setWidth 24 (BitVec.extractLsb' 0 16 lo)) := by
+    bv_decide
+  rw [e]
+
+/-- MOV.W @(d:24,ERs),Rd -/
+theorem MOV_W_LD_D24 (op op2 hi lo : BitVec 16) (st s1 s2 st' : Cpu) (c : BitVec 8) (i : Spec.Instr)
+    (hp : Spec.Form.pat .MOV_W_LD_D24 op op2 hi lo 0 = true)
+    (hi' : Spec.instrOf .MOV_W_LD_D24 op op2 hi lo 0 = some i) (hf : fetch st = .ok hi s1) (hf2 : fetch s1 = .ok lo s2)
+    (h : movDisp24BW .W op op2 st = .ok c st') :
+    st' = { s2 with regs := (specRegCcr i s2).1, ccr := (specRegCcr i s2).2 } := by
+  rw [Spec.instrOf_MOV_W_LD_D24] at hi'; simp only [Option.some.injEq] at hi'; subst hi'
+  rw [Spec.pat_MOV_W_LD_D24] at hp; simp only [Bool.and_eq_true, beq_iff_eq] at hp
+  have htag : (op2 &&& 0xfff0 == 0x6b20) = true := by bv_decide
+  have hsz : (Sz.W == Sz.B) = false := by decide
+  have h3 : (nib op 3).ule 7#8 = true := by (simp only [nib]; bv_decide)
+  simp only [movDisp24BW, bind_ok, fetch32_ok _ _ _ _ _ hf hf2, hsz, Bool.false_eq_true, if_false, if_true, htag, getAddrDisp24,
+    readMem, readAbs24W, pure_ok, readRnL_ok _ _ h3] at h
+  split at h
+  case h_2 => simp at h
+  case h_3 => simp at h
+  rename_i v s3 hb
+  split at hb
+  case h_2 => simp at hb
+  case h_3 => simp at hb
+  rename_i w16 sw hw
+  split at hw
+  case h_2 => simp at hw
+  case h_3 => simp at hw
+  rename_i vhi sh hhi
+  obtain ⟨eh1, eh2, _⟩ := busRead_peek _ _ _ _ hhi
+  subst eh1
+  split at hw
+  case h_2 => simp at hw
+  case h_3 => simp at hw
+  rename_i vlo sl hlo
+  obtain ⟨el1, el2, hml⟩ := busRead_peek _ _ _ _ hlo
+  subst el1
+  simp only [Res.ok.injEq] at hw
+  obtain ⟨hw1, hw2⟩ := hw
+  subst hw1; subst hw2
+  simp only [Res.ok.injEq] at hb
+  obtain ⟨hb1, hb2⟩ := hb
+  subst hb1; subst hb2
+  simp only [writeRn, movPccSz, movPcc, writeRnW_nib, bind_ok, pure_ok, changeCcr_ok, writeCcr_zero, Sz.dataKind] at h
+  movcost_subst
+  simp only [specRegCcr, Spec.exec, Spec.getReg, Spec.setReg, Spec.movFlags, Spec.eaOf, Spec.eaRegs, getR16_eq, setR16_eq,
+    getER_eq, loadBE_two, Spec.Sz.bytes]
+  have hidx : (BitVec.setWidth 8 (BitVec.setWidth 3 (BitVec.extractLsb' 4 3 op))) = nib op 3 := by
+    simp only [nib]; bv_decide
+  rw [hidx]
+  rw [disp24_toNat _ hi lo hp.1.1.2] at eh2
+  rw [disp24_1_toNat _ hi lo hp.1.1.2 hml] at el2
+  rw [← eh2, ← el2]
+  generalize sl.regs = r; generalize sl.ccr = cc
+  congr 1
+  all_goals (
+    simp only [nib, rdW, wrW, getEr, setEr, shOf, Spec.nzClearV, Spec.setFlag, changeCcrV, Spec.z4, Spec.zx16, Spec.lo3]
+    bv_decide)
+
+/-- MOV.W Rs,@(d:24,ERd) -/
+theorem MOV_W_ST_D24 (op op2 hi lo : BitVec 16) (st s1 s2 st' : Cpu) (c : BitVec 8) (i : Spec.Instr)
+    (hp : Spec.Form.pat .MOV_W_ST_D24 op op2 hi lo 0 = true)
+    (hi' : Spec.instrOf .MOV_W_ST_D24 op op2 hi lo 0 = some i) (hf : fetch st = .ok hi s1) (hf2 : fetch s1 = .ok lo s2)
+    (h : movDisp24BW .W op op2 st = .ok c st')
+    (hsfr0 : Spec.isSfr ((getEr s2.regs (nib op 3 &&& 7) + ((hi.setWidth 32 <<< 16) ||| lo.setWidth 32)) &&& ADDRESS_MASK).toNat = false)
+    (hsfr1 : Spec.isSfr (((getEr s2.regs (nib op 3 &&& 7) + ((hi.setWidth 32 <<< 16) ||| lo.setWidth 32)) &&& ADDRESS_MASK) + 1).toNat = false) :
+    st' = { s2 with regs := (specRegCcrBus i s2).1, ccr := (specRegCcrBus i s2).2.1, bus := (specRegCcrBus i s2).2.2 } := by
+  rw [Spec.instrOf_MOV_W_ST_D24] at hi'; simp only [Option.some.injEq] at hi'; subst hi'
+  rw [Spec.pat_MOV_W_ST_D24] at hp; simp only [Bool.and_eq_true, beq_iff_eq] at hp
+  have htag : (op2 &&& 0xfff0 == 0x6b20) = false := by bv_decide
+  have hsz : (Sz.W == Sz.B) = false := by decide
+  have h3 : (nib op 3 &&& 7).ule 7#8 = true := by (simp only [nib]; bv_decide)
+  simp only [movDisp24BW, bind_ok, fetch32_ok _ _ _ _ _ hf hf2, hsz, htag, Bool.false_eq_true, if_false, getAddrDisp24, writeMem,
+    writeAbs24W, readRn, pure_ok, readRnL_ok _ _ h3, readRnW_nib] at h
+  split at h
+  case h_2 => simp at h
+  case h_3 => simp at h
+  rename_i u s3 hw
+  split at hw
+  case h_2 => simp at hw
+  case h_3 => simp at hw
+  rename_i u0 s0 hw0
+  have e0 := busWrite_poke _ _ _ _ hw0 hsfr0
+  subst e0
+  have hm1 := busWrite_mapped _ _ _ _ hw
+  have e1 := busWrite_poke _ _ _ _ hw hsfr1
+  subst e1
+  simp only [movPccSz, movPcc, bind_ok, pure_ok, changeCcr_ok, writeCcr_zero, Sz.dataKind] at h
+  movcost_subst
+  simp only [specRegCcrBus, Spec.exec, Spec.getReg, Spec.setReg, Spec.movFlags, Spec.eaOf, Spec.eaRegs, getR16_eq, setR16_eq,
+    getER_eq, storeBE_two, Spec.Sz.bytes]
+  have hidx : (BitVec.setWidth 8 (BitVec.setWidth 3 (BitVec.extractLsb' 4 3 op))) = nib op 3 &&& 7 := by
+    simp only [nib]; bv_decide
+  rw [hidx, ← disp24_toNat _ hi lo hp.1.1.2, ← disp24_1_toNat _ hi lo hp.1.1.2 hm1]
+  generalize hA : ((getEr s2.regs (nib op 3 &&& 7) + ((hi.setWidth 32 <<< 16) ||| lo.setWidth 32)) &&& ADDRESS_MASK).toNat = A
+  generalize hB : (((getEr s2.regs (nib op 3 &&& 7) + ((hi.setWidth 32 <<< 16) ||| lo.setWidth 32)) &&& ADDRESS_MASK) + 1).toNat = B
+  generalize s2.regs = r; generalize s2.ccr = cc; generalize s2.bus = bus
+  have hn : nib op2 4 = ((op2.extractLsb' 0 4).setWidth 4).setWidth 8 := by simp only [nib]; bv_decide
+  rw [hn]
+  generalize rdW r _ = w
+  have e1 : BitVec.setWidth 8 (BitVec.setWidth 16 (BitVec.setWidth 32 w) >>> 8) = BitVec.setWidth 8 (BitVec.setWidth 32 w >>> 8) := by
+    bv_decide
+  have e2 : BitVec.setWidth 8 (BitVec.setWidth 16 (BitVec.setWidth 32 w)) = BitVec.setWidth 8 (BitVec.setWidth 32 w) := by
+    bv_decide
+  rw [e1, e2]
+  congr 1
+
+/-! ### long operands (0100 78r0 6B2d / 6BAs dddddddd: the handler runs on the second word and fetches three more) -/
+
+theorem disp24_sum24 (x : BitVec 32) (hi lo : BitVec 16) (h0 : hi &&& 0xff00#16 = 0x0000#16) :
+    (x + ((hi.setWidth 32 <<< 16) ||| lo.setWidth 32)).setWidth 24 =
+      x.setWidth 24 + ((BitVec.setWidth 24 (BitVec.extractLsb' 0 8 hi) <<< 16) ||| BitVec.setWidth 24 (BitVec.extractLsb' 0 16 lo)) := by
+  bv_decide
+
+/-- MOV.L @(d:24,ERs),ERd -/
+theorem MOV_L_LD_D24 (op op2 op3 hi lo : BitVec 16) (st s1 s2 s3 st' : Cpu) (c : BitVec 8) (i : Spec.Instr)
+    (hp : Spec.Form.pat .MOV_L_LD_D24 op op2 op3 hi lo = true)
+    (hi' : Spec.instrOf .MOV_L_LD_D24 op op2 op3 hi lo = some i)
+    (hf0 : fetch st = .ok op3 s1) (hf : fetch s1 = .ok hi s2) (hf2 : fetch s2 = .ok lo s3)
+    (h : movLDisp24 op2 st = .ok c st') :
+    st' = { s3 with regs := (specRegCcr i s3).1, ccr := (specRegCcr i s3).2 } := by
+  rw [Spec.instrOf_MOV_L_LD_D24] at hi'; simp only [Option.some.injEq] at hi'; subst hi'
+  rw [Spec.pat_MOV_L_LD_D24] at hp; simp only [Bool.and_eq_true, beq_iff_eq] at hp
+  have hdir : (op2 &&& 0x0080 == 0) = true := by bv_decide
+  have h3 : (nib op2 3).ule 7#8 = true := by (simp only [nib]; bv_decide)
+  have h4 : (nib op3 4).ule 7#8 = true := by (simp only [nib]; bv_decide)
+  simp only [movLDisp24, bind_ok, hf0, fetch32_ok _ _ _ _ _ hf hf2, hdir, if_true, getAddrDisp24, pure_ok, readRnL_ok _ _ h3] at h
+  split at h
+  case h_2 => simp at h
+  case h_3 => simp at h
+  rename_i v s4 hrd
+  obtain ⟨es, ev⟩ := readAbs24L_peek _ _ _ _ hrd
+  subst es
+  simp only [movPcc, writeRnL_ok _ _ _ h4, bind_ok, pure_ok, changeCcr_ok, writeCcr_zero] at h
+  movcost_subst
+  simp only [specRegCcr, Spec.exec, Spec.getReg, Spec.setReg, Spec.movFlags, Spec.eaOf, Spec.eaRegs, getER_eq, setER_eq,
+    Spec.Sz.bytes]
+  have hidx : (BitVec.setWidth 8 (BitVec.setWidth 3 (BitVec.extractLsb' 4 3 op2))) = nib op2 3 := by
+    simp only [nib]; bv_decide
+  have hd : (BitVec.setWidth 8 (Spec.lo3 (Spec.z4 (BitVec.setWidth 3 (BitVec.extractLsb' 0 3 op3))))) = nib op3 4 := by
+    simp only [nib, Spec.lo3, Spec.z4]; bv_decide
+  rw [hidx, hd, ← disp24_sum24 _ hi lo hp.1.2, ← ev]
+  generalize s4.regs = r; generalize s4.ccr = cc
+  congr 1
+
+/-- MOV.L ERs,@(d:24,ERd) -/
+theorem MOV_L_ST_D24 (op op2 op3 hi lo : BitVec 16) (st s1 s2 s3 st' : Cpu) (c : BitVec 8) (i : Spec.Instr)
+    (hp : Spec.Form.pat .MOV_L_ST_D24 op op2 op3 hi lo = true)
+    (hi' : Spec.instrOf .MOV_L_ST_D24 op op2 op3 hi lo = some i)
+    (hf0 : fetch st = .ok op3 s1) (hf : fetch s1 = .ok hi s2) (hf2 : fetch s2 = .ok lo s3)
+    (h : movLDisp24 op2 st = .ok c st')
+    (f0 : Spec.isSfr ((getEr s3.regs (nib op2 3 &&& 7) + ((hi.setWidth 32 <<< 16) ||| lo.setWidth 32)) &&& ADDRESS_MASK).toNat = false)
+    (f1 : Spec.isSfr (((getEr s3.regs (nib op2 3 &&& 7) + ((hi.setWidth 32 <<< 16) ||| lo.setWidth 32)) &&& ADDRESS_MASK) + 1).toNat = false)
+    (f2 : Spec.isSfr (((getEr s3.regs (nib op2 3 &&& 7) + ((hi.setWidth 32 <<< 16) ||| lo.setWidth 32)) &&& ADDRESS_MASK) + 2).toNat = false)
+    (f3 : Spec.isSfr (((getEr s3.regs (nib op2 3 &&& 7) + ((hi.setWidth 32 <<< 16) ||| lo.setWidth 32)) &&& ADDRESS_MASK) + 2 + 1).toNat = false) :
+    st' = { s3 with regs := (specRegCcrBus i s3).1, ccr := (specRegCcrBus i s3).2.1, bus := (specRegCcrBus i s3).2.2 } := by
+  rw [Spec.instrOf_MOV_L_ST_D24] at hi'; simp only [Option.some.injEq] at hi'; subst hi'
+  rw [Spec.pat_MOV_L_ST_D24] at hp; simp only [Bool.and_eq_true, beq_iff_eq] at hp
+  have hdir : (op2 &&& 0x0080 == 0) = false := by bv_decide
+  have h3 : (nib op2 3 &&& 7).ule 7#8 = true := by (simp only [nib]; bv_decide)
+  have h4 : (nib op3 4).ule 7#8 = true := by (simp only [nib]; bv_decide)
+  simp only [movLDisp24, bind_ok, hf0, fetch32_ok _ _ _ _ _ hf hf2, hdir, Bool.false_eq_true, if_false, getAddrDisp24, pure_ok,
+    readRnL_ok _ _ h3, readRnL_ok _ _ h4] at h
+  split at h
+  case h_2 => simp at h
+  case h_3 => simp at h
+  rename_i u s4 hw
+  have ew := writeAbs24L_poke _ _ _ _ hw f0 f1 f2 f3
+  subst ew
+  simp only [movPcc, bind_ok, pure_ok, changeCcr_ok, writeCcr_zero] at h
+  movcost_subst
+  simp only [specRegCcrBus, Spec.exec, Spec.getReg, Spec.setReg, Spec.movFlags, Spec.eaOf, Spec.eaRegs, getER_eq, setER_eq,
+    Spec.Sz.bytes]
+  have hidx : (BitVec.setWidth 8 (BitVec.setWidth 3 (BitVec.extractLsb' 4 3 op2))) = nib op2 3 &&& 7 := by
+    simp only [nib]; bv_decide
+  have hd : (BitVec.setWidth 8 (Spec.lo3 (Spec.z4 (BitVec.setWidth 3 (BitVec.extractLsb' 0 3 op3))))) = nib op3 4 := by
+    simp only [nib, Spec.lo3, Spec.z4]; bv_decide
+  rw [hidx, hd, ← disp24_sum24 _ hi lo hp.1.2]
+  generalize s3.regs = r; generalize s3.ccr = cc; generalize s3.bus = bus
+  congr 1
 
 end H8.Props.C08X
